@@ -230,13 +230,19 @@ func c17Decoder(c *Ctx) {
 	}
 	// Decode uses it
 	okDec := false
-	EachInstr(dec, func(in ssa.Instruction) {
-		if cl, ok := in.(*ssa.Call); ok && MatchCC(&cl.Call, Spec{"github.com/mitchellh/mapstructure", "", "NewDecoder"}) {
-			if a, _ := CallOfValue(cl.Call.Args[0]); a != nil && a.Call.StaticCallee() == ndc && a.Call.Args[0] == ssa.Value(dec.Params[1]) {
-				okDec = true
+	// in Decode or in a helper of the package it calls (newDecoder(result))
+	for _, g := range FindFuncs(dec, 2, func(*ssa.Function) bool { return true }) {
+		EachInstr(g, func(in ssa.Instruction) {
+			if cl, ok := in.(*ssa.Call); ok && MatchCC(&cl.Call, Spec{"github.com/mitchellh/mapstructure", "", "NewDecoder"}) {
+				for _, r := range Roots(cl.Call.Args[0], false) {
+					if a, _ := CallOfValue(r); a != nil && a.Call.StaticCallee() == ndc &&
+						SliceAny(a.Call.Args[0], func(v ssa.Value) bool { return v == ssa.Value(dec.Params[1]) }) {
+						okDec = true
+					}
+				}
 			}
-		}
-	})
+		})
+	}
 	c.Check(okDec, "O17.1", fk(dec)+":uses-the-strict-config", dec.Pos(), "Decode builds its decoder from newDecoderConfig(result)")
 	// DecodeAndValidate
 	var dcall, vcall *ssa.Call
@@ -398,10 +404,21 @@ func c17FillConf(c *Ctx) {
 		c.Anchor("O17.3", "pluginconfig.parseConf / config.DecodeAndValidate")
 		return
 	}
+	// the fillConf closure: the one-parameter closure that calls DecodeAndValidate, made by parseConf or by a helper
+	// of the package it calls (newFillConf(...))
 	var fill *ssa.Function
-	for _, a := range pc.AnonFuncs {
-		if len(a.Params) == 1 {
-			fill = a
+	region := FindFuncs(pc, 2, func(*ssa.Function) bool { return true })
+	for _, a := range region {
+		if a.Parent() != nil && len(a.Params) == 1 {
+			callsDav := false
+			EachInstr(a, func(in ssa.Instruction) {
+				if cl, ok := in.(*ssa.Call); ok && cl.Call.StaticCallee() == dav {
+					callsDav = true
+				}
+			})
+			if callsDav {
+				fill = a
+			}
 		}
 	}
 	if fill == nil {
@@ -427,16 +444,69 @@ func c17FillConf(c *Ctx) {
 			tsk = cl
 		}
 	})
-	okMap := tsk != nil && DerivesOnly(call.Call.Args[0], false, IsResultOf(tsk, 0))
-	// or: a copy of that map made in parseConf (see the copy rule below)
-	var copyMap *ssa.MakeMap
-	if tsk != nil && !okMap {
-		for _, r := range Roots(call.Call.Args[0], false) {
-			if mm, ok := r.(*ssa.MakeMap); ok && mm.Parent() == pc {
-				copyMap = mm
+	// the decoded map resolved through captured variables, parameters of helpers and the results of helpers
+	var leaves []ssa.Value
+	{
+		seen := map[ssa.Value]bool{}
+		var walk func(v ssa.Value, d int)
+		walk = func(v ssa.Value, d int) {
+			if seen[v] || d > 6 {
+				return
+			}
+			seen[v] = true
+			for _, r := range Roots(v, false) {
+				if pr, ok := r.(*ssa.Parameter); ok {
+					followed := false
+					for i, q := range pr.Parent().Params {
+						if q != pr {
+							continue
+						}
+						for _, site := range P.StaticCallSites(pr.Parent()) {
+							if cc := CC(site); cc != nil && i < len(cc.Args) {
+								walk(cc.Args[i], d+1)
+								followed = true
+							}
+						}
+					}
+					if followed {
+						continue
+					}
+				}
+				if cl, _ := CallOfValue(r); cl != nil && cl != tsk && cl.Call.StaticCallee() != nil && PkgOf(cl.Call.StaticCallee()) == PkgOf(pc) && cl.Call.StaticCallee().Name() != "toStringKeyMap" {
+					ts := ThroughReturns(r)
+					if len(ts) != 1 || ts[0] != r {
+						for _, t := range ts {
+							walk(t, d+1)
+						}
+						continue
+					}
+				}
+				if IsNilConst(r) {
+					continue // the nil a helper returns next to its error
+				}
+				leaves = append(leaves, r)
 			}
 		}
-		okMap = copyMap != nil && DerivesOnly(call.Call.Args[0], false, func(v ssa.Value) bool { return v == ssa.Value(copyMap) })
+		walk(call.Call.Args[0], 0)
+	}
+	okMap := tsk != nil && len(leaves) > 0
+	for _, l := range leaves {
+		if !IsResultOf(tsk, 0)(l) {
+			okMap = false
+		}
+	}
+	// or: a copy of that map made in parseConf or its helper (see the copy rule below)
+	var copyMap *ssa.MakeMap
+	if tsk != nil && !okMap {
+		okMap = len(leaves) > 0
+		for _, l := range leaves {
+			if mm, ok := l.(*ssa.MakeMap); ok && (copyMap == nil || copyMap == mm) {
+				copyMap = mm
+			} else if !IsResultOf(tsk, 0)(l) { // the variable held the section itself before the copy replaced it
+				okMap = false
+			}
+		}
+		okMap = okMap && copyMap != nil
 	}
 	c.Check(iv.Is(1, 1) && okArgs && okMap, "O17.3", fk(fill)+":strict-decode-and-validate", call.Pos(),
 		fmt.Sprintf("DecodeAndValidate(confData, conf) per fillConf call = %v (want [1,1] - also for a config struct without fields: that is how unknown keys of config-less plugins are rejected); conf is the closure's argument: %v; the map is parseConf's confData: %v", iv, okArgs, okMap))
@@ -469,7 +539,12 @@ func c17FillConf(c *Ctx) {
 	// deletions from the map only for the type key
 	nDel := 0
 	okDel := true
-	EachInstr(pc, func(in ssa.Instruction) {
+	eachRegion := func(f func(ssa.Instruction)) {
+		for _, g := range region {
+			EachInstr(g, f)
+		}
+	}
+	eachRegion(func(in ssa.Instruction) {
 		if !IsBuiltinCall(in, "delete") {
 			return
 		}
@@ -494,7 +569,7 @@ func c17FillConf(c *Ctx) {
 	if copyMap == nil {
 		c.Check(nDel == 1 && okDel, "O17.3", fk(pc)+":only-the-type-key-is-removed", pc.Pos(), fmt.Sprintf("%d delete(confData, key) call(s), each under strings.ToLower(key) == \"type\": %v", nDel, okDel))
 	} else {
-		c17CopyWithoutType(c, pc, tsk, copyMap, nDel)
+		c17CopyWithoutType(c, copyMap.Parent(), tsk, copyMap, nDel)
 	}
 	c17FillConfRegistry(c)
 }
@@ -503,9 +578,9 @@ func c17FillConf(c *Ctx) {
 func c17CopyWithoutType(c *Ctx, pc *ssa.Function, tsk *ssa.Call, copyMap *ssa.MakeMap, nDel int) {
 	// the copying form: the decoded map is filled in a range over the section, with the ranged key and value, on
 	// exactly the iterations whose key is not the type key
-	isTypeTest := func(v ssa.Value) bool {
+	isTypeCmp := func(v ssa.Value, op token.Token) bool {
 		b, ok := v.(*ssa.BinOp)
-		if !ok || b.Op != token.EQL {
+		if !ok || b.Op != op {
 			return false
 		}
 		for _, pr := range [][2]ssa.Value{{b.X, b.Y}, {b.Y, b.X}} {
@@ -517,6 +592,8 @@ func c17CopyWithoutType(c *Ctx, pc *ssa.Function, tsk *ssa.Call, copyMap *ssa.Ma
 		}
 		return false
 	}
+	isTypeEq := func(v ssa.Value) bool { return isTypeCmp(v, token.EQL) }
+	isTypeNe := func(v ssa.Value) bool { return isTypeCmp(v, token.NEQ) }
 	var ups []*ssa.MapUpdate
 	EachInstr(pc, func(in ssa.Instruction) {
 		if mu, ok := in.(*ssa.MapUpdate); ok && DerivesOnly(mu.Map, false, func(v ssa.Value) bool { return v == ssa.Value(copyMap) }) {
@@ -539,7 +616,7 @@ func c17CopyWithoutType(c *Ctx, pc *ssa.Function, tsk *ssa.Call, copyMap *ssa.Ma
 				return false
 			}
 			rg, ok := n.Iter.(*ssa.Range)
-			if !ok || !DerivesOnly(rg.X, false, IsResultOf(tsk, 0)) {
+			if !ok || !SliceAny(rg.X, IsResultOf(tsk, 0)) {
 				return false
 			}
 			next = n
@@ -555,8 +632,9 @@ func c17CopyWithoutType(c *Ctx, pc *ssa.Function, tsk *ssa.Call, copyMap *ssa.Ma
 				return 0, 0
 			}
 			head := next.Block()
-			kept := PathQuery{Fn: pc, Start: next, StopBlock: head, Weight: w, Edge: RestrictBool(isTypeTest, false), Exit: func(*ssa.BasicBlock) bool { return false }}.Count()
-			dropped := PathQuery{Fn: pc, Start: next, StopBlock: head, Weight: w, Edge: RestrictBool(isTypeTest, true), Exit: func(*ssa.BasicBlock) bool { return false }}.Count()
+			// "the key is the type key" assumed false / true, whichever way the comparison is written (== or !=)
+			kept := PathQuery{Fn: pc, Start: next, StopBlock: head, Weight: w, Assume: []Assumption{{isTypeEq, false}, {isTypeNe, true}}, Exit: func(*ssa.BasicBlock) bool { return false }}.Count()
+			dropped := PathQuery{Fn: pc, Start: next, StopBlock: head, Weight: w, Assume: []Assumption{{isTypeEq, true}, {isTypeNe, false}}, Exit: func(*ssa.BasicBlock) bool { return false }}.Count()
 			okCount = kept.Is(1, 1) && (dropped.NoPath || dropped.Is(0, 0))
 			detail += fmt.Sprintf("; copies per iteration with another key = %v (want [1,1]), with the type key = %v (want [0,0])", kept, dropped)
 		}
